@@ -175,7 +175,7 @@ pub fn projections() -> Vec<Proj> {
     // not hide behind a zero
     let mut w = Vec::new();
     for t in &v {
-        if t.op == "utm" || t.op == "butm" || t.op == "webmerc" || t.aspect == "variant B alpha=90" || (t.def.contains("x_0=") && t.def.contains("y_0=")) {
+        if t.op == "utm" || t.op == "butm" || t.op == "webmerc" || (t.def.contains("x_0=") && t.def.contains("y_0=")) {
             continue;
         }
         let mut u = t.clone();
